@@ -25,6 +25,8 @@ def obligations(tier):
     obs.append(Ob("C08.bpm_event_dataflow", "CH", "harness.h_sync", "bpm_event_dataflow", 120, funcs=(SY + "BPMEvent.from_parsed_data",)))
     obs.append(Ob("C08.dispatch_wiring", "CH", "harness.h_track", "track_dispatch_wiring", 300, {"VF_TRACK": 1}, funcs=(SY + "SyncTrack._parse_data_from_chart_lines",)))
     obs += _sync_section("C08", ["0,1,3", "0,2,1", "1,1,1"] if tier == "quick" else ["0,1,3", "0,2,1", "1,1,1", "3,0,2", "2,2,0", "0,1"])
+    obs.append(Ob("C08.framing", "CH", "harness.h_chart", "framing", 300, funcs=("chartparse.chart.Chart._partition_lines_by_data_section",),
+                  bounds="3 sections x <=2 symbolic body lines of any length (blank lines included): this section's parser receives exactly its own body lines"))
     return obs
 
 
